@@ -29,7 +29,7 @@ def jobs(tier, seed):
             J += deepen(P, ['storage'], f'caplaw-{kind}-{c}v3', lambda n, kind=kind, pre=pre, c=c: sc(kind, n, prefix=pre, api='parse', cap=c),
                         range(T(tier, 7, 7), T(tier, 7, 9) + 1), T(tier, 100, 900), f'{kind}: capacity {c} versus capacity 3 on ' + 'every {n}-byte header block', 6,
                         fn='mirse.props.c17.leaf_caplaw')
-    J += sliding_families(P, G, tier, step=T(tier, 4, 1), pool=T(tier, ('req-post', 'resp-fold'), None))
+    J += sliding_families(P, G, tier, step=T(tier, 3, 1), pool=T(tier, ('req-post', 'resp-fold'), None))
     J += sliding_families(P, G, tier, step=T(tier, 5, 2), pool=('req-post',), cap=2)
     return J
 
